@@ -7,12 +7,19 @@ SPEC = {
             "buffered and rendezvous send semantics, with and without a restart of one walker at an exchange boundary; 3 "
             "walkers with <= 1 (thorough 2) deviations from the default order; after each execution every walker's combined "
             "counts/gradient sums must equal the union of all walkers' reference samples up to the last exchange plus its own "
-            "samples since, its local grids must equal its own contribution; no enabled action before completion = deadlock. "
+            "samples since, its local grids must equal its own contribution; no enabled action before completion = deadlock; "
+            "more shared-ABF cases: sharedFreq 1 and 3, restart after a later exchange, run lengths 3-7 (final state at every "
+            "phase of the exchange cycle), a state without the last-exchange record (earlier versions) must load, 4 walkers "
+            "(thorough). Shared eABF: the CZAR data gathered on replica 0 when the output is written (end-of-run actions are "
+            "scheduled like steps) must equal the sum of every walker's own z data. OPES with multipleReplicas (2 and 3 "
+            "walkers): after the run every walker must hold the same kernels, one for each (walker, deposition step), the "
+            "kernel counter 1 + their number. "
             "Multiple-walker metadynamics through real files: interleavings of the two walkers' step actions (thorough: ALL; "
             "quick: a fixed quarter) x replicaUpdateFrequency {1,2} x restart of a walker {no,yes}, 3 walkers in two orders, "
             "and the peer's hills file cut at every byte (quick: every 9th) while the other walker synchronises; after every "
             "action the multiplicity of every deposited hill in every walker's total bias (probed at the hill centres) must "
-            "be 1 for own hills and <= 1 for peers' hills, never a hill that was not deposited; at quiescence all are 1",
+            "be 1 for own hills and <= 1 for peers' hills, never a hill that was not deposited; right after a walker's own "
+            "synchronisation it must hold every hill a peer had published before the peer's last synchronisation; at quiescence all are 1",
     "assumptions": ["the engine's replica communication is modelled by the controller: reliable, ordered per pair, buffered or rendezvous",
                     "dictated positions/forces; hill centres 1.0 apart so that multiplicities can be read from the energy",
                     "files are written through the real filesystem in one scratch directory; a peer's in-flight write is modelled as a byte prefix of its hills file"],
